@@ -84,6 +84,9 @@ def leg_T(ctx, which, sessions, only=None):
         e = events[line - 1]
         if why.startswith("driver-") or why.startswith("spec-"):
             raise vlib.Machinery("%s: inconsistency of the machinery (%s) at trace line %d: %s" % (module, why, line, describe(e)[:600]))
+        if why.startswith("NOTE-"):     # behaviour beyond the listed properties (Get, Step.String): reported, never a violation
+            ctx.note("%s: %s at trace line %d (x=%s y=%s panic=%s)" % (module, why, line, e.get("x"), e.get("y"), e.get("panic")))
+            continue
         if e["sid"] in badsids:
             continue
         badsids.add(e["sid"])
@@ -97,7 +100,7 @@ def leg_T(ctx, which, sessions, only=None):
             if which == "smtext":
                 key = "%s/%s" % (e["kind"], "error" if e["err"] else "matrix")
             else:
-                key = "%s/%s" % (e["op"], "panic" if e["panic"] else ("ok" if e["op"] == "symmetrical" or e["parseok"] else "unparsed"))
+                key = "%s/%s" % (e["op"], "panic" if e["panic"] else ("ok" if e["op"] != "gostring" or e["parseok"] else "unparsed"))
             kinds[key] = kinds.get(key, 0) + 1
         ctx.extra["trace_" + which] = kinds
         vlib.log("  [T] %s: %d sessions: %s" % (which, len(sids), ", ".join("%s %d" % kv for kv in sorted(kinds.items()))))
@@ -108,7 +111,7 @@ def leg_T(ctx, which, sessions, only=None):
                 continue
             if which == "smtext" and (len(e["res"]) < 2 and not e["err"]):
                 continue
-            if which == "matrix" and len(e["m"]) < 2:
+            if which == "matrix" and (len(e["m"]) < 2 or e["op"] in ("get", "stepname")):
                 continue
             seen.add(key)
             if len(seen) <= 3:
